@@ -63,9 +63,18 @@ static const char *ctx_of(int h)
         snprintf(_k, sizeof _k, "%s/%s/%s/%s", prop_of(h), oracle, h_opname(g_run.opkind), g_cur_ctx); \
         sim_violation(_k, __VA_ARGS__); } while (0)
 
+/* element handles (see the trees world): what the caller hands to the library may be an address past the node members
+ * ("negative" offsets) or 2^31 / 2^32 bytes before the structure (offsets just above 2^31 / 2^32). The huge-heap
+ * batch keeps plain structure pointers. */
+static size_t g_hnd;
+#define HND(e) ((void *)((uintptr_t)(e) + g_hnd))
+#define ELM(h) ((struct helem *)((uintptr_t)(h) - g_hnd))
+#define ELMN(h) ((h) ? ELM(h) : NULL)
+static int cmp_plainheap;       /* the huge-heap batch: handles are the structures themselves */
+
 static int cmp_prio(const void *a, const void *b, void *p)
 {
-    const struct helem *x = a, *y = b; const struct hord *o = p;
+    const struct helem *x = cmp_plainheap ? a : ELM(a), *y = cmp_plainheap ? b : ELM(b); const struct hord *o = p;
     int d = o ? o->dir : 1;
     return sim_cmp(d * ((x->prio > y->prio) - (x->prio < y->prio)));
 }
@@ -114,7 +123,7 @@ static void audit_heap(int h)
     if (a_count != m->n) VIOL(h, "reachable_count", "heap %d: %d nodes reachable, reference has %d", h, a_count, m->n);
     for (i = 0; i < m->n; i++)
         if (m->e[i]->mark != walk_epoch) VIOL(h, "lost_element", "heap %d: element %d is held but not reachable", h, m->e[i]->id);
-    TRY(g = cstl_heap_get(&hp[h]));
+    TRY(g = cstl_heap_get(&hp[h])); g = ELMN(g);
     if (g_aborted) VIOL(h, "abort", "get aborted");
     if (m->n == 0) { if (g != NULL) VIOL(h, "get_empty", "heap %d: get on an empty heap returned non-NULL", h); }
     else {
@@ -145,7 +154,7 @@ static int clr_id[MAXN + 8], nclr, pre_ids[MAXN];
 static void clear_cb(void *obj, void *priv)
 {
     CB_ENTER();
-    struct helem *e = obj;
+    struct helem *e = ELM(obj);
     int id = -1;
     (void)priv;
     if (simheap_is_live(e) && e->magic == MAGIC && e->tail == ~MAGIC) id = e->id;
@@ -181,6 +190,7 @@ static void huge_heap(uint64_t nsel, uint64_t seed)
     int phase;
     if (!pool) sim_harness_bug("heap: no memory for a huge heap");
     hkind[0] = 0; cur_h = 0;
+    cmp_plainheap = 1;
     cstl_heap_init(&hp[0], cmp_prio, NULL, hoff(0));
     g_cur_ctx = n > 2000000 ? "size-above-2^21" : n > 60000 ? "size-above-2^16" : n > 4000 ? "size-above-2^12" : "size-above-2^8";
     if (n > 2000000) { sim_watchdog(100); PROBE("huge_heap_2^21"); }
@@ -228,13 +238,19 @@ static void h_exec(const plan_t *p)
     prios = (int)p->cfg[CF_PRIOS]; if (prios < 1) prios = 1;
     maxn = (int)p->cfg[CF_MAXN]; if (maxn < 1) maxn = 4; if (maxn > MAXN - 8) maxn = MAXN - 8;
     clear_frees = (int)(p->cfg[CF_CLEARFREES] & 1);
-    next_id = 0; maxreach = 0; nrecycle = 0;
+    next_id = 0; maxreach = 0; nrecycle = 0; cmp_plainheap = 0;
+    switch (p->cfg[CF_CLEARFREES] >> 12 & 7) {
+    default: g_hnd = 0; break;
+    case 1: case 2: g_hnd = sizeof(struct helem); PROBE("handles_past_the_node_members"); break;
+    case 3: g_hnd = (size_t)0 - (((size_t)1 << 31) + 24); PROBE("handles_2^31_before_the_node_members"); break;
+    case 4: g_hnd = (size_t)0 - (((size_t)1 << 32) + 24); PROBE("handles_2^32_before_the_node_members"); break;
+    }
     memset(hp, (int)(unsigned char)p->cfg[CF_JUNK], sizeof hp);
     for (i = 0; i < 2; i++) {
         hkind[i] = (int)(p->cfg[CF_CLEARFREES] >> (4 + i) & 1);
         hords[i].dir = (p->cfg[CF_CLEARFREES] >> (8 + i) & 1) ? -1 : 1;
         mh[i].ord = &hords[i];
-        cstl_heap_init(&hp[i], cmp_prio, &hords[i], hoff(hkind[i]));
+        cstl_heap_init(&hp[i], cmp_prio, &hords[i], hoff(hkind[i]) - g_hnd);
         mh[i].n = 0; mh[i].since_clear = -1;
     }
 
@@ -249,7 +265,8 @@ static void h_exec(const plan_t *p)
             g_cur_prop = "C07";
             huge_heap(o->a[1], o->a[2]);
             hkind[0] = (int)(p->cfg[CF_CLEARFREES] >> 4 & 1);
-            cstl_heap_init(&hp[0], cmp_prio, mh[0].ord, hoff(hkind[0]));
+            cmp_plainheap = 0;
+            cstl_heap_init(&hp[0], cmp_prio, mh[0].ord, hoff(hkind[0]) - g_hnd);
             continue;
         }
 
@@ -264,7 +281,7 @@ static void h_exec(const plan_t *p)
             e = simheap_alloc(sizeof *e, TAG_ELEM);
             e->magic = MAGIC; e->tail = ~MAGIC; e->id = next_id++; e->heap = h; e->mark = 0;
             e->prio = (int)(o->a[1] % (uint64_t)prios);
-            TRY(cstl_heap_push(&hp[h], e));
+            TRY(cstl_heap_push(&hp[h], HND(e)));
             if (g_aborted) VIOL(h, g_aborted == 2 ? "assert" : "abort", "push aborted");
             m->e[m->n++] = e;
             if ((m->n & (m->n - 1)) == 0) PROBE("push_to_2^k");
@@ -272,7 +289,7 @@ static void h_exec(const plan_t *p)
             EVT("push", h, e->id, e->prio);
             break;
         case H_POP: do_pop:
-            TRY(ret = cstl_heap_pop(&hp[h]));
+            TRY(ret = cstl_heap_pop(&hp[h])); ret = ELMN(ret);
             if (g_aborted) VIOL(h, g_aborted == 2 ? "assert" : "abort", "pop aborted");
             if (m->n == 0) {
                 PROBE("pop_empty");
@@ -375,7 +392,7 @@ static void h_gen(prng_t *r, int mode, plan_t *p)
     p->cfg[CF_PRIOS] = small ? 1 + prng_below(r, 3) : 1 + prng_below(r, 40);
     p->cfg[CF_JUNK] = 1 + prng_below(r, 254);
     p->cfg[CF_MAXN] = longrun ? 200 + prng_below(r, 850) : small ? 2 + prng_below(r, 6) : 4 + prng_below(r, 60);
-    p->cfg[CF_CLEARFREES] = (mode == 15 ? 1 : prng_below(r, 2)) | (prng_chance(r, 1, 3) ? prng_below(r, 4) << 4 : 0) | (prng_chance(r, 1, 2) ? prng_below(r, 4) << 8 : 0);
+    p->cfg[CF_CLEARFREES] = (mode == 15 ? 1 : prng_below(r, 2)) | (prng_chance(r, 1, 3) ? prng_below(r, 4) << 4 : 0) | (prng_chance(r, 1, 2) ? prng_below(r, 4) << 8 : 0) | (prng_chance(r, 1, 3) ? prng_below(r, 8) << 12 : 0);
     for (i = 0; i < nops; i++) {
         unsigned x = (unsigned)prng_below(r, 100 + w_clear);
         int kind = x < push_w ? H_PUSH : x < 90 ? H_POP : x < 94 ? H_GET : x < 100 ? H_SWAP : H_CLEAR;
